@@ -37,6 +37,9 @@ def run(ctx):
     from .c02 import r02d
 
     ctx.each(r02d, ctx, repo, T)
+    from .c02 import r02b
+
+    ctx.each(r02b, ctx, repo, T)  # a negative transition value is clamped every step: a reverse flow empties its destination, which the non-negativity clamp then resets - and people appear from nowhere
     from . import c04 as _c04
 
     ctx.each(_c04.r04b, ctx, repo)  # junctions are balanced and flushed in dependency order: people flushed into a junction that was visited before are left behind
